@@ -253,28 +253,32 @@ func (s *Session) handleDATA() error {
 		return s.rejectTransaction(554, "Message validation failed: %v", err)
 	}
 
-	// Check quota for each recipient (if enabled)
+	// Check quota for each recipient (if enabled): a recipient whose store is full is answered 552 and gets no copy
+	overQuota := make(map[string]bool)
 	if s.config.Delivery.QuotaEnabled {
 		for _, recipient := range s.recipients {
-			username, err := parser.ExtractLocalPart(recipient)
-			if err != nil {
-				continue
-			}
-
-			if err := s.storage.CheckQuota(username, msg.Size, s.config.Delivery.QuotaLimit); err != nil {
+			if err := s.storage.CheckRecipientQuota(recipient, msg.Size, s.config.Delivery.QuotaLimit); err != nil {
 				log.Printf("Quota check failed for %s: %v", recipient, err)
-				// Continue with other recipients
+				overQuota[recipient] = true
 			}
 		}
 	}
 
 	// Deliver to each recipient (LMTP requires per-recipient response)
 	folder := s.config.Delivery.DefaultFolder
-	results := s.storage.DeliverToMultipleRecipients(s.recipients, msg, folder)
+	deliverTo := make([]string, 0, len(s.recipients))
+	for _, recipient := range s.recipients {
+		if !overQuota[recipient] {
+			deliverTo = append(deliverTo, recipient)
+		}
+	}
+	results := s.storage.DeliverToMultipleRecipients(deliverTo, msg, folder)
 
 	// Send per-recipient responses
 	for _, recipient := range s.recipients {
-		if err := results[recipient]; err != nil {
+		if overQuota[recipient] {
+			_ = s.sendResponse(552, "5.2.2 Mailbox full: <%s> is over quota", recipient)
+		} else if err := results[recipient]; err != nil {
 			log.Printf("Delivery failed for %s: %v", recipient, err)
 			_ = s.sendResponse(550, "5.3.0 Delivery failed for <%s>: %v", recipient, err)
 		} else {
